@@ -2,7 +2,12 @@
 
 package ttlv
 
-import "time"
+import (
+	"math/big"
+	"time"
+)
+
+var _ = big.NewInt
 
 // Lemma functions for the gocv verifier: ordinary Go code over the real writer and reader, verified
 // modularly against their contracts (the callees' bodies are not looked at). Compiled only with -tags verif.
@@ -569,4 +574,125 @@ func lemmaReuseDateTime(w *ttlvWriter, tag int, v time.Time) (a, b []byte) {
 	f := &ttlvWriter{}
 	f.DateTime(tag, v)
 	return w.buf, f.buf
+}
+
+// Generic containers (C01/C18): a ttlv.Value holding a scalar is read back, by the generic decoder that
+// dispatches on the TTLV type found on the wire, as a ttlv.Value of the same tag, Go type and value
+// (element-level model of the writer/reader interfaces, see zz_verif_model.go).
+
+//@ lemma lemmaMirrorValueInteger
+//@   requires out != nil && typeis(v.Value, int32) && 0 < tag && tag < 1<<24 && out.Tag == 0 && out.Value == nil && !tapeDropped
+//@   ensures err == nil && end && !tapeDropped
+//@   ensures out.Tag == tag && typeis(out.Value, int32) && dyn(out.Value, int32) == dyn(v.Value, int32)
+
+func lemmaMirrorValueInteger(v Value, tag int, out *Value) (err error, end bool) {
+	e := VerifModelEncoder()
+	v.TagEncodeTTLV(&e, tag)
+	d := VerifModelDecoder(&e)
+	err = out.DecodeTTLV(&d)
+	return err, VerifTapeEnd(&d)
+}
+
+//@ lemma lemmaMirrorValueLongInteger
+//@   requires out != nil && typeis(v.Value, int64) && 0 < tag && tag < 1<<24 && out.Tag == 0 && out.Value == nil && !tapeDropped
+//@   ensures err == nil && end && !tapeDropped
+//@   ensures out.Tag == tag && typeis(out.Value, int64) && dyn(out.Value, int64) == dyn(v.Value, int64)
+
+func lemmaMirrorValueLongInteger(v Value, tag int, out *Value) (err error, end bool) {
+	e := VerifModelEncoder()
+	v.TagEncodeTTLV(&e, tag)
+	d := VerifModelDecoder(&e)
+	err = out.DecodeTTLV(&d)
+	return err, VerifTapeEnd(&d)
+}
+
+//@ lemma lemmaMirrorValueBool
+//@   requires out != nil && typeis(v.Value, bool) && 0 < tag && tag < 1<<24 && out.Tag == 0 && out.Value == nil && !tapeDropped
+//@   ensures err == nil && end && !tapeDropped
+//@   ensures out.Tag == tag && typeis(out.Value, bool) && dyn(out.Value, bool) == dyn(v.Value, bool)
+
+func lemmaMirrorValueBool(v Value, tag int, out *Value) (err error, end bool) {
+	e := VerifModelEncoder()
+	v.TagEncodeTTLV(&e, tag)
+	d := VerifModelDecoder(&e)
+	err = out.DecodeTTLV(&d)
+	return err, VerifTapeEnd(&d)
+}
+
+//@ lemma lemmaMirrorValueEnum
+//@   requires out != nil && typeis(v.Value, Enum) && 0 < tag && tag < 1<<24 && out.Tag == 0 && out.Value == nil && !tapeDropped
+//@   ensures err == nil && end && !tapeDropped
+//@   ensures out.Tag == tag && typeis(out.Value, Enum) && dyn(out.Value, Enum) == dyn(v.Value, Enum)
+
+func lemmaMirrorValueEnum(v Value, tag int, out *Value) (err error, end bool) {
+	e := VerifModelEncoder()
+	v.TagEncodeTTLV(&e, tag)
+	d := VerifModelDecoder(&e)
+	err = out.DecodeTTLV(&d)
+	return err, VerifTapeEnd(&d)
+}
+
+//@ lemma lemmaMirrorValueTextString
+//@   requires out != nil && typeis(v.Value, string) && 0 < tag && tag < 1<<24 && out.Tag == 0 && out.Value == nil && !tapeDropped
+//@   ensures err == nil && end && !tapeDropped
+//@   ensures out.Tag == tag && typeis(out.Value, string) && dyn(out.Value, string) == dyn(v.Value, string)
+
+func lemmaMirrorValueTextString(v Value, tag int, out *Value) (err error, end bool) {
+	e := VerifModelEncoder()
+	v.TagEncodeTTLV(&e, tag)
+	d := VerifModelDecoder(&e)
+	err = out.DecodeTTLV(&d)
+	return err, VerifTapeEnd(&d)
+}
+
+//@ lemma lemmaMirrorValueInterval
+//@   requires out != nil && typeis(v.Value, time.Duration) && 0 < tag && tag < 1<<24 && out.Tag == 0 && out.Value == nil && !tapeDropped
+//@   ensures err == nil && end && !tapeDropped
+//@   ensures out.Tag == tag && typeis(out.Value, time.Duration) && dyn(out.Value, time.Duration) == dyn(v.Value, time.Duration)
+
+func lemmaMirrorValueInterval(v Value, tag int, out *Value) (err error, end bool) {
+	e := VerifModelEncoder()
+	v.TagEncodeTTLV(&e, tag)
+	d := VerifModelDecoder(&e)
+	err = out.DecodeTTLV(&d)
+	return err, VerifTapeEnd(&d)
+}
+
+//@ lemma lemmaMirrorValueDateTime
+//@   requires out != nil && typeis(v.Value, time.Time) && 0 < tag && tag < 1<<24 && out.Tag == 0 && out.Value == nil && !tapeDropped
+//@   ensures err == nil && end && !tapeDropped
+//@   ensures out.Tag == tag && typeis(out.Value, time.Time) && unix(dyn(out.Value, time.Time)) == unix(dyn(v.Value, time.Time))
+
+func lemmaMirrorValueDateTime(v Value, tag int, out *Value) (err error, end bool) {
+	e := VerifModelEncoder()
+	v.TagEncodeTTLV(&e, tag)
+	d := VerifModelDecoder(&e)
+	err = out.DecodeTTLV(&d)
+	return err, VerifTapeEnd(&d)
+}
+
+//@ lemma lemmaMirrorValueByteString
+//@   requires out != nil && typeis(v.Value, []byte) && 0 < tag && tag < 1<<24 && out.Tag == 0 && out.Value == nil && !tapeDropped
+//@   ensures err == nil && end && !tapeDropped
+//@   ensures out.Tag == tag && typeis(out.Value, []byte) && len(dyn(out.Value, []byte)) == len(dyn(v.Value, []byte)) && arr(dyn(out.Value, []byte)) == arr(dyn(v.Value, []byte))
+
+func lemmaMirrorValueByteString(v Value, tag int, out *Value) (err error, end bool) {
+	e := VerifModelEncoder()
+	v.TagEncodeTTLV(&e, tag)
+	d := VerifModelDecoder(&e)
+	err = out.DecodeTTLV(&d)
+	return err, VerifTapeEnd(&d)
+}
+
+//@ lemma lemmaMirrorValueBigInteger
+//@   requires out != nil && typeis(v.Value, *big.Int) && 0 < tag && tag < 1<<24 && out.Tag == 0 && out.Value == nil && !tapeDropped
+//@   ensures err == nil && end && !tapeDropped
+//@   ensures out.Tag == tag && typeis(out.Value, *big.Int) && dyn(out.Value, *big.Int) == dyn(v.Value, *big.Int)
+
+func lemmaMirrorValueBigInteger(v Value, tag int, out *Value) (err error, end bool) {
+	e := VerifModelEncoder()
+	v.TagEncodeTTLV(&e, tag)
+	d := VerifModelDecoder(&e)
+	err = out.DecodeTTLV(&d)
+	return err, VerifTapeEnd(&d)
 }
